@@ -78,15 +78,16 @@ def run_models(run: Run, scratch: Path):
         if t["how"] != "running" and not r["ok"] and not (t["how"] == "crashed" and t["fcall"] != "none"):
             rejected.setdefault(t["cfg"], set()).add((t["pre"], t["how"], t["fcall"], t["dest"], D.coarse(t["tmp"])))
     not_rejected = sorted(seen - set(rejected))
-    if not_rejected or "swallow_close" not in rejected:
+    if not_rejected or "swallow_close" not in rejected or "zip_append" not in rejected:
         raise RuntimeError(f"spec self-test: Atomic does not reject the configurations {not_rejected} of RejectedConfigs (seen: {sorted(seen)})")
     run.note("rejected_terminal_states_per_rejected_configuration", {k: len(v) for k, v in sorted(rejected.items())})
     run.note("swallow_close_rejected_outcomes", sorted(map(list, rejected["swallow_close"])))
+    run.note("zip_append_rejected_outcomes", sorted(map(list, rejected["zip_append"])))
     table = {}
     for r in out["judge"][1]:
         if r.get("act") == "Judge":
             table[tuple(r["args"])] = (bool(r["ok"]), sorted(r["broken"]))
-    if len(table) != 2 * 3 * 9 * 4 * 4:
+    if len(table) != 2 * 3 * 11 * 5 * 4:  # pre x how x (calls + none + other) x dest x tmp
         raise RuntimeError(f"verdict table incomplete: {len(table)} rows")
     run.note(
         "tlc_runs",
@@ -135,6 +136,8 @@ def finding_key(case, res, out, broken):
     if "dest" in broken:
         if out["dest"] == "Partial":
             parts.append("dest-partial")
+        elif out["dest"] == "OldNew":
+            parts.append("dest-old+new-members")
         elif res["pre"] == "Old" and out["dest"] == "absent":
             parts.append("dest-lost")
         elif out["how"] == "ok":
@@ -177,13 +180,19 @@ def check_writes(run: Run, scratch: Path, model, table):
             n = len(r["events"])
             for k in range(1, n + 1):
                 jobs.append((r["case"], r["pre"], k, "kill", str(work)))
-                for v in D.fault_variants(r["events"][k - 1]["role"]):
+                variants = D.fault_variants(r["events"][k - 1]["role"])
+                if run.tier == "quick" and r["case"].target == "zip":
+                    # quick: zip targets with one one-shot and one persistent variant per boundary, no second-level kills
+                    variants = [variants[0], variants[-1]]
+                for v in variants:
                     jobs.append((r["case"], r["pre"], k, "fault", str(work), v))
         first = pool.map(D.execute, jobs, chunksize=2)
         # second level: the process dies while an injected (one-shot) fault is being handled, at every boundary
         # the faulted run makes after the fault (handler / fallback / retry calls)
         jobs2 = []
         for r in first:
+            if run.tier == "quick" and r["case"].target == "zip":
+                continue
             if r["mode"] == "fault" and r["variant"].endswith(":once") and r["status"] == "exited":
                 for e in r["events"]:
                     if e["i"] > r["k"]:
